@@ -55,7 +55,7 @@ func runC03(c *Ctx, r *Report) {
 			}
 			// outermost enclosing loop
 			var outer ast.Node
-			for cur := p.parent[ast.Node(call)]; cur != nil && cur != ast.Node(join.Body); cur = p.parent[cur] {
+			for cur := p.ParentIn(join, ast.Node(call)); cur != nil && cur != ast.Node(join.Body); cur = p.ParentIn(join, cur) {
 				switch cur.(type) {
 				case *ast.RangeStmt, *ast.ForStmt:
 					outer = cur
